@@ -91,8 +91,31 @@ func isPop(st ast.Stmt, w string) bool {
 		if exprString(se.High) == "len("+w+") - 1" || exprString(se.High) == "len("+w+")-1" {
 			return true
 		}
+		if id, ok := se.High.(*ast.Ident); ok && popAliases[w+"|"+id.Name] {
+			return true // a local that was set to len(w)-1 in this loop body
+		}
 	}
 	return false
+}
+
+// popAliases: "w|x" when the loop body over worklist w contains `x := len(w) - 1` (filled by notePopAliases).
+var popAliases = map[string]bool{}
+
+func notePopAliases(body *ast.BlockStmt, w string) {
+	ast.Inspect(body, func(n ast.Node) bool {
+		as, ok := n.(*ast.AssignStmt)
+		if !ok || len(as.Lhs) != 1 || len(as.Rhs) != 1 {
+			return true
+		}
+		id, ok := as.Lhs[0].(*ast.Ident)
+		if !ok {
+			return true
+		}
+		if es := exprString(as.Rhs[0]); es == "len("+w+") - 1" || es == "len("+w+")-1" {
+			popAliases[w+"|"+id.Name] = true
+		}
+		return true
+	})
 }
 
 func isIncr(st ast.Stmt, v string) bool {
@@ -243,11 +266,13 @@ func runWorklist(c *core.Ctx) {
 		key := fmt.Sprintf("loop:%s#%d", li.fd.Name.Name, count[li.fd.Name.Name])
 		c.SetTags("term")
 		if li.kind == "index" {
+			notePopAliases(li.loop.Body, li.w)
 			ok := progressOnAllPaths(li.loop.Body, func(st ast.Stmt) bool { return isIncr(st, li.idx) || isPop(st, li.w) })
 			c.Check(ok, key+":progress", li.loop.Pos(), "index loop over %s advances %s or shortens the slice on every path: %v", li.w, li.idx, ok)
 			continue
 		}
 		// (i)
+		notePopAliases(li.loop.Body, li.w)
 		okP := progressOnAllPaths(li.loop.Body, func(st ast.Stmt) bool { return isPop(st, li.w) })
 		c.Check(okP, key+":progress", li.loop.Pos(), "every path through the body shortens %s before the back edge: %v (otherwise the loop spins forever, in the collector while holding the repository token)", li.w, okP)
 		// popped item: `d := W[len(W)-1]` / uses of W[0]
@@ -961,8 +986,12 @@ func runConvertMark(c *core.Ctx) {
 		return
 	}
 	conv := constValue(c, "types", "AnnotReferrerConvert")
-	// the ingest: shared store function taking a *types.Index and returning (bool, error)
-	var ingest *ssa.Function
+	// the ingest: shared store function(s) taking a *types.Index and returning (bool, error); the one the stores' loaders
+	// call is the entry, the one that sets the converted annotation does the conversion (the same function, or a step
+	// split out of it)
+	isConvKey := func(v ssa.Value) bool { s, ok := an.ConstString(v); return ok && s == conv }
+	isTrueStr := func(v ssa.Value) bool { s, ok := an.ConstString(v); return ok && s == "true" }
+	var cands []*ssa.Function
 	for _, fn := range sharedStoreFuncs(c) {
 		if fn.Parent() != nil {
 			continue
@@ -976,20 +1005,61 @@ func runConvertMark(c *core.Ctx) {
 		}
 		for _, p := range fn.Params {
 			if pt, ok := p.Type().(*types.Pointer); ok && isNamed(pt.Elem(), r.TypesPath, "Index") {
-				ingest = fn
+				cands = append(cands, fn)
+				break
 			}
 		}
+	}
+	var entry, ingest *ssa.Function
+	for _, fn := range cands {
+		for _, site := range c.P.Callers(fn) {
+			if pf := site.Parent(); pf != nil && r.FamilyOfFunc(pf) != nil {
+				entry = fn
+			}
+		}
+		an.Instrs(fn, func(in ssa.Instruction) {
+			if mu, ok := in.(*ssa.MapUpdate); ok && isConvKey(mu.Key) && isTrueStr(mu.Value) {
+				ingest = fn
+			}
+		})
+	}
+	if entry == nil && len(cands) > 0 {
+		entry = cands[len(cands)-1]
+	}
+	if ingest == nil {
+		ingest = entry
 	}
 	if ingest == nil {
 		c.Unresolved("ingest", "no shared function (…*types.Index…) (bool, error) found")
 		return
 	}
-	isConvKey := func(v ssa.Value) bool { s, ok := an.ConstString(v); return ok && s == conv }
-	isTrueStr := func(v ssa.Value) bool { s, ok := an.ConstString(v); return ok && s == "true" }
+	// when the conversion is a step of its own, it starts ‘in conversion’ if its call in the entry is guarded by the ‘not yet
+	// converted’ test under the referrers setting
+	startInConv := false
+	if ingest != entry && entry != nil {
+		an.Calls(entry, func(call ssa.CallInstruction) {
+			if call.Common().StaticCallee() != ingest {
+				return
+			}
+			t, _ := settingGuards(call.Block())
+			if !t["API.Referrer.Enabled"] {
+				return
+			}
+			for _, g := range an.GuardingEdges(call.Block()) {
+				if x, y, op, ok := an.CmpTest(g.If()); ok && isTrueStr(y) {
+					if lk, isLk := an.Strip(x).(*ssa.Lookup); isLk && isConvKey(lk.Index) {
+						if (op == token.NEQ && g.Succ == 0) || (op == token.EQL && g.Succ == 1) {
+							startInConv = true
+						}
+					}
+				}
+			}
+		})
+	}
 	type st struct{ inConv, set bool }
 	bad := ""
 	var setBlocks []*ssa.BasicBlock
-	an.Paths(an.PathSpec[st]{Fn: ingest, Init: st{},
+	an.Paths(an.PathSpec[st]{Fn: ingest, Init: st{inConv: startInConv},
 		Instr: func(s st, in ssa.Instruction) []st {
 			switch x := in.(type) {
 			case *ssa.MapUpdate:
@@ -1056,6 +1126,39 @@ func runConvertMark(c *core.Ctx) {
 			b = s
 		}
 	}
+	if !modOK {
+		// a conversion step of its own: it returns true straight after setting the annotation
+		for _, sb := range setBlocks {
+			b := sb
+			for step := 0; step < 4 && !modOK && b != nil; step++ {
+				if len(b.Instrs) > 0 {
+					if ret, ok := b.Instrs[len(b.Instrs)-1].(*ssa.Return); ok && len(ret.Results) == 2 {
+						if bv, isC := an.ConstBool(ret.Results[0]); isC && bv {
+							modOK = true
+						}
+					}
+				}
+				if len(b.Succs) != 1 {
+					break
+				}
+				b = b.Succs[0]
+			}
+		}
+		// …and the entry passes that verdict on
+		if modOK && ingest != entry && entry != nil {
+			used := false
+			an.Calls(entry, func(call ssa.CallInstruction) {
+				if cc, ok := call.(*ssa.Call); ok && cc.Call.StaticCallee() == ingest && cc.Referrers() != nil {
+					for _, ref := range *cc.Referrers() {
+						if ex, ok := ref.(*ssa.Extract); ok && ex.Index == 0 && ex.Referrers() != nil && len(*ex.Referrers()) > 0 {
+							used = true
+						}
+					}
+				}
+			})
+			modOK = used
+		}
+	}
 	c.Check(modOK, "modified-set:"+kn(c.P.FuncName(ingest)), ingest.Pos(), "the ‘modified’ result is true on the edge that leaves the conversion: %v (otherwise the converted index is never saved)", modOK)
 	// loaders
 	c.SetTags("loader")
@@ -1068,7 +1171,7 @@ func runConvertMark(c *core.Ctx) {
 			}
 			an.Calls(fn, func(call ssa.CallInstruction) {
 				cc, isCall := call.(*ssa.Call)
-				if !isCall || cc.Call.StaticCallee() != ingest {
+				if !isCall || (cc.Call.StaticCallee() != ingest && cc.Call.StaticCallee() != entry) {
 					return
 				}
 				where = fn
